@@ -111,7 +111,7 @@ def write_evidence(machine, tier, seed, merged, nplanned, violations, known_line
             "probes": probes,
             "other_counters": other,
             "set_sizes": {k: len(v) for k, v in sorted(stats.sets.items())},
-            "sets": {k: sorted(v)[:400] for k, v in sorted(stats.sets.items())},
+            "sets": {k: sorted(v)[:600] for k, v in sorted(stats.sets.items())},
             "components_real": machine.components_real,
             "components_stub": machine.components_stub,
             "known_findings_reported": known_lines,
